@@ -23,8 +23,7 @@ import sys
 from harness import common, scriptlib as sl
 
 PROP = 'C04'
-THEOREMS = ['C04_trace', 'C04_terminates', 'C04_const', 'C04_sum', 'C04_repeat_until_tightened', 'C04_fixed_len',
-            'C04_edit_distance', 'C04_string', 'C04_lists']
+THEOREMS = ['C04_trace', 'C04_terminates', 'C04_const', 'C04_sum', 'C04_fixed_len']
 MODELS = ['theories/MachineSpec.vo', 'theories/MachineModel.vo']
 HEADER = ('From Coq Require Import ZArith List Bool.\nRequire Import GT.PyBase GT.Data GT.MachineSpec.\n'
           'Import ListNotations.\nOpen Scope Z_scope.\n')
@@ -389,7 +388,7 @@ def open_findings():
     return fs
 
 
-KF_CLASSES = [('D23', 'kf_multiset_unmatched'), ('D24', 'kf_false_with_change')]
+KF_CLASSES = []      # (finding id, Gallina class predicate) of the OPEN findings: none
 
 
 def evaluate(run, wd, st, items, tag='cases'):
